@@ -185,6 +185,21 @@ def crash_site(text):
     return first, frame
 
 
+def library_fault(first, frame, text):
+    """Is the (reproducible) death of the process the library's doing?  Yes if the first frame of the faulting goroutine
+    outside the Go runtime lies in arche; also for the memory-corruption class of runtime faults, which come without a usable
+    stack (the harness itself writes through no unsafe pointer and shares nothing between goroutines in these modes):
+    bad pointers found by the collector, corrupted type words, faults at wild addresses.  Never for Go panics raised in
+    harness code, deadlocks, exhausted memory or concurrent map access (possible harness defects: infrastructure)."""
+    if frame.startswith('github.com/mlange-42/arche/'):
+        return True
+    if frame:
+        return False
+    corrupt = ('name offset', 'bad pointer', 'invalid pointer', 'unexpected fault address', 'SIGSEGV', 'SIGBUS',
+               'found pointer to free object', 'marking free object', 'bad sweepgen', 'span has no free', 'misaligned')
+    return first.startswith('fatal error') and any(k in first or k in text[:4000] for k in corrupt)
+
+
 def salvage_crash(ctx, h, sched, out, label, env):
     """Recover the schedule that killed the generator from its journal and replay it with every trace line flushed.
     Returns None when the journal is unusable or the fault does not reproduce."""
@@ -226,7 +241,7 @@ def salvage_crash(ctx, h, sched, out, label, env):
         f.writelines(good)
     first, frame = crash_site(r.stdout)
     return dict(sched=cs, trace=ct, lines=len(good), nops=len(ops), last_op=ops[-1] if ops else None, first=first, frame=frame,
-                library=frame.startswith('github.com/mlange-42/arche/'), text=r.stdout[:2500], schedule=header)
+                library=library_fault(first, frame, r.stdout), text=r.stdout[:2500], schedule=header)
 
 
 def run_schedules(ctx, sched, tags='verif', label=None):
@@ -274,7 +289,7 @@ def salvage_run_crash(ctx, h, sched, trace, label):
     ops = header.get('ops', [])
     nops = max(0, len(good) - 1)
     return dict(sched=cs, trace=ct, lines=len(good), nops=nops, last_op=ops[nops] if nops < len(ops) else None, first=first,
-                frame=frame, library=frame.startswith('github.com/mlange-42/arche/'), text=r.stdout[:2500], schedule=header)
+                frame=frame, library=library_fault(first, frame, r.stdout), text=r.stdout[:2500], schedule=header)
 
 
 def validate(ctx, trace, module='TraceAbs.tla', cfg='TraceAbs.cfg', timeout=900, strict=False):
